@@ -42,6 +42,8 @@ module Nat :
   val leb : nat -> nat -> bool
 
   val ltb : nat -> nat -> bool
+
+  val even : nat -> bool
  end
 
 val hd : 'a1 -> 'a1 list -> 'a1
